@@ -117,10 +117,37 @@ func floatTextDenotes(text string, f float64) bool {
 	return g == f
 }
 
+// anyValue in an expected value matches any single decoded JSON value. It stands where the
+// original holds something JSON cannot represent: if the marshaler chooses to write a value
+// there instead of reporting an error, it must still be exactly one value in that position.
+type anyValue struct{}
+
+func containsAnyValue(exp any) bool {
+	switch e := exp.(type) {
+	case anyValue:
+		return true
+	case []any:
+		for _, x := range e {
+			if containsAnyValue(x) {
+				return true
+			}
+		}
+	case map[string]any:
+		for _, x := range e {
+			if containsAnyValue(x) {
+				return true
+			}
+		}
+	}
+	return false
+}
+
 // jsonEqual compares an expected Go value with a value decoded by decodeJSON.
 // Strings (and object names) are compared after the reference U+FFFD replacement.
 func jsonEqual(exp, dec any) bool {
 	switch e := exp.(type) {
+	case anyValue:
+		return true
 	case nil:
 		return dec == nil
 	case bool:
@@ -145,6 +172,9 @@ func jsonEqual(exp, dec any) bool {
 		g, _ := r.Float32()
 		return g == e
 	case []any:
+		if dec == nil && containsAnyValue(e) {
+			return true // the whole subtree holding an unrepresentable value was written as null
+		}
 		d, ok := dec.([]any)
 		if !ok || len(d) != len(e) {
 			return false
@@ -156,6 +186,9 @@ func jsonEqual(exp, dec any) bool {
 		}
 		return true
 	case map[string]any:
+		if dec == nil && containsAnyValue(e) {
+			return true
+		}
 		d, ok := dec.(map[string]any)
 		if !ok || len(d) != len(e) {
 			return false
